@@ -563,7 +563,9 @@ class Emitter:
             if li:
                 caps = [c["ctype"].decl(("xc_cp_" if c["byref"] else "") + c["name"]) for c in li["captures"]]
                 params = caps + params
-                ctx["lambda_caps"] = {c["var_id"]: c for c in li["captures"]}
+                ctx["lambda_caps"] = {c["var_id"]: c for c in li["captures"] if c["var_id"] is not None}
+                if any(c["name"] == "self" and c["var_id"] is None for c in li["captures"]):
+                    ctx["self"] = "ptr"
         # return type
         qt = decl.get("type", {}).get("qualType", "")
         if decl.get("kind") == "CXXConstructorDecl":
@@ -1406,6 +1408,12 @@ class Emitter:
             return self.expr(inner)       # std::atomic<T> -> std::__atomic_base<T>: both are the plain T
         if it is not None and it.base == t.base and it.base.startswith("xc_"):
             return self.expr(inner)       # derived and base class are mapped to the same boundary type
+        if t.base.startswith("xc_") and n.get("castKind") in ("DerivedToBase", "UncheckedDerivedToBase"):
+            # the base class is a boundary type (std:: container seen through a shim): the shim identifies the object, not its layout
+            self.report["derived-to-base conversions to a boundary (shim) base type turned into pointer casts"] += 1
+            if t.ptr and not t.is_ref:
+                return "((%s)(%s))" % (t.text(), self.expr(inner))
+            return "(*(%s *)&(%s))" % (t.base, self.expr(inner))
         brec = self.find_record(lconst(strip_ns((n["type"].get("desugaredQualType") or n["type"]["qualType"]).rstrip("*& "))))
         if brec is not None and not any(c.get("kind") == "FieldDecl" for c in brec.get("inner", [])):
             # a base class without data members: reinterpret the pointer (the base sub-object is empty)
@@ -1654,7 +1662,9 @@ class Emitter:
                     ft = CT(ft.base, ft.ptr, ft.dims)
                 caps.append({"name": var["name"], "var_id": var["id"], "byref": byref, "ctype": ft, "init": ci})
             elif s.get("kind") == "CXXThisExpr":
-                raise ExtractionError("lambda capturing this not supported")
+                # [this] / [&] using members: the enclosing object's pointer becomes the leading parameter `self`
+                caps.append({"name": "self", "var_id": None, "byref": False, "ctype": self.ctype(s["type"]), "init": ci})
+                self.report["lambdas capturing this: enclosing object passed as parameter self"] += 1
             else:
                 raise ExtractionError("lambda init-capture not supported (%s)" % s.get("kind"))
         li = {"cname": cname, "captures": caps, "op": op, "rec": rec, "parent": self.cur["cname"]}
